@@ -240,10 +240,23 @@ func (w *Worktree) diffStagingWithWorktree(cfg *config.Config, reverse, excludeI
 
 	to := filesystem.NewRootNodeWithOptions(w.filesystem, submodules, fsOpts)
 
+	var changes merkletrie.Changes
 	if reverse {
-		return merkletrie.DiffTree(to, from, diffTreeIsEquals)
+		changes, err = merkletrie.DiffTree(to, from, diffTreeIsEquals)
+	} else {
+		changes, err = merkletrie.DiffTree(from, to, diffTreeIsEquals)
 	}
-	return merkletrie.DiffTree(from, to, diffTreeIsEquals)
+	if err != nil {
+		return nil, err
+	}
+
+	// A file that could not be read got the zero hash and shows up above as
+	// modified. That is not a fact about the file: report the failure.
+	if err := filesystem.HashError(to); err != nil {
+		return nil, err
+	}
+
+	return changes, nil
 }
 
 // ignoreScope builds the ignore scope in effect at the root of the worktree:
